@@ -21,4 +21,5 @@ C18_TN(unsigned long, "u64")
 #undef C18_TN
 
 void register_grid_shards(); // C18_grid.cpp
+void register_protocol_shards(); // C18_protocol.cpp
 }
